@@ -207,3 +207,27 @@ Example C16_finder_range_partial_example :
   expand (skip_clips (rev ops)) = rev C /\ ref_len ops = refcols C /\ qcols C = 22 /\
   1000 + move_ref_coord ops 9 <= 1000 + ref_len ops - move_ref_coord ops (-12).
 Proof. vm_compute. repeat split; discriminate. Qed.
+
+(* ---- tie to the source, loop functions: correct_bam_coords (src/common.py) and shift_polya / shift_polyt (src/polya_verification.py) are
+        regenerated from the source on every check (tools/translate_loops.py -> gen/Loops.v: guards, one `for i in range(exon_count)` as
+        fold_left over seq, the exon list read with Python indices, negative = from the end) and PROVED equal to the hand-written models for
+        every exon count the code can be called with; for those the exception-freedom condition py_..._pre holds.  One bridge library per
+        function, loaded inside the proof. *)
+From IQ.gen Require Loops.
+Theorem C16_correct_bam_coords_is_the_source : forall l, Cigar2.correct_bam_coords l = Loops.py_correct_bam_coords l.
+Proof.
+From IQ Require LoopCorrectBamBridge.
+exact LoopCorrectBamBridge.correct_bam_coords_is_the_source. Qed.
+Print Assumptions C16_correct_bam_coords_is_the_source.
+Theorem C16_shift_polya_is_the_source : forall exons k pos, 0 <= k <= Z.of_nat (length exons) ->
+  PolyA2.shift_polya exons k pos = Loops.py_shift_polya exons k pos /\ Loops.py_shift_polya_pre exons k pos = true.
+Proof.
+From IQ Require LoopShiftPolyaBridge.
+exact LoopShiftPolyaBridge.shift_polya_is_the_source. Qed.
+Print Assumptions C16_shift_polya_is_the_source.
+Theorem C16_shift_polyt_is_the_source : forall exons k pos, 0 <= k <= Z.of_nat (length exons) ->
+  PolyA2.shift_polyt exons k pos = Loops.py_shift_polyt exons k pos /\ Loops.py_shift_polyt_pre exons k pos = true.
+Proof.
+From IQ Require LoopShiftPolytBridge.
+exact LoopShiftPolytBridge.shift_polyt_is_the_source. Qed.
+Print Assumptions C16_shift_polyt_is_the_source.
